@@ -126,24 +126,31 @@ def run(res, a):
             T += tl
             if delay == 10 and dec == 1:
                 samples += [l for l in tl if "step=" in l][:3]
-    # (3) the two-arena witness
-    ok, rc, out, err = oslib.run_harness(exe, ["X", a.seed])
-    wl = [l for l in out.splitlines() if l.startswith("T witness")]
-    if not ok or not wl:
-        res.violation("harness-crash", "t_purge X exited with %d: %s" % (rc, err[-600:]), witness="t_purge X")
-    else:
-        kind, d = oslib.kv(wl[0].replace(" | ", " "))
+    # (3) regression scenarios of `arena-global-expiry-reset` (repaired by c59c73f): a pending arena must be purged by
+    #     NON-forced passes once its own expiry and the re-armed global expiry have passed
+    scen = {"two-arenas": ("X", "two arenas A,B (mi_reserve_os_memory_ex, 4 blocks each, exclusive), default options (arena delay 100ms); "
+                                "t0: free the only segment of A; t0+50ms: free the only segment of B; t0+120ms: mi_collect(false) purges A while "
+                                "B.purge_expire=t0+150 is still pending; then 3 x (advance 100ms; mi_collect(false); mi_malloc(100); mi_free)"),
+            "single-arena": ("X2", "default options, the default 1GiB arena; p,q=mi_malloc(20MiB); t0: mi_free(p); t0+10ms: mi_collect(true); "
+                                   "t0+50ms: mi_free(q) (arena purge_expire=t0+150); t0+120ms: mi_collect(false) (global expiry passed, arena not "
+                                   "yet); then 3 x (advance 100ms; mi_collect(false); mi_malloc(64); mi_free)")}
+    for name, (mode, hist) in scen.items():
+        ok, rc, out, err = oslib.run_harness(exe, [mode, a.seed])
+        wl = [l for l in out.splitlines() if l.startswith("T witness")]
+        if not ok or not wl:
+            res.violation("harness-crash", "t_purge %s exited with %d: %s" % (mode, rc, err[-600:]), witness="t_purge " + mode); continue
+        kind, d = oslib.kv(wl[0])
         T += wl
-        f = wl[0]
-        if "setup=1" in f and "B_purged_bytes=0 | after_forced_collect" in f:
+        if d.get("setup") != 1:
+            res.violation("witness-setup:" + name, "the regression scenario could not be set up: " + wl[0], witness=None); continue
+        if d["B_purged_after_idle"] != d["expected"]:
+            any_bad = True
             res.violation("arena-global-expiry-reset",
-                          "a free arena block scheduled for purging is never purged without a forced collect: mi_arenas_try_purge resets the global "
-                          "expiry mi_arenas_purge_expire to 0 at the end of a pass although another arena still has a pending purge_expire, and "
-                          "mi_arena_schedule_purge only re-arms the global expiry when the arena's own expiry was 0",
-                          witness="two arenas A,B (mi_reserve_os_memory_ex, 4 blocks each, exclusive), default options (arena delay 100ms); "
-                                  "t0: free the only segment of A; t0+50ms: free the only segment of B; t0+120ms: mi_collect(false) purges A and "
-                                  "resets the global expiry to 0 while B.purge_expire=t0+150 stays set; 5 x (advance 10s; mi_collect(false); "
-                                  "mi_malloc(100); mi_free): B is never purged. harness record: " + f)
+                          "a free arena block scheduled for purging is not purged by non-forced passes: after the pass at t0+120ms the global expiry "
+                          "mi_arenas_purge_expire is %d while the arena's purge_expire is %d; after 300ms of idle non-forced collects %d of %d bytes "
+                          "are purged (global=%d, arena purge_expire=%d)" % (d["global_after_collect1"], d.get("B_expire_after_collect1", d.get("A_expire_after_collect1", -1)),
+                                                                               d["B_purged_after_idle"], d["expected"], d["global"], d.get("B_expire", d.get("A_expire", -1))),
+                          witness=hist + ". harness record: " + wl[0])
     # (4) model replay
     nrec, mism = oslib.replay(res, F, "C18")
     if mism and not any_bad:
